@@ -932,11 +932,8 @@ def unbroadcast_f(target, f):
 def unbroadcast_einsum(x, target_meta, subscript):
     if Ellipsis not in subscript:
         return unbroadcast(x, target_meta)
-    elif subscript[0] == Ellipsis:
-        return unbroadcast(x, target_meta, 0)
-    elif subscript[-1] == Ellipsis:
-        return unbroadcast(x, target_meta, -1)
     else:
+        # the broadcast axes this operand lacks are the leading ones of the ellipsis block
         return unbroadcast(x, target_meta, subscript.index(Ellipsis))
 
 
